@@ -16,18 +16,30 @@ def run(prop, level, groups, assumptions, explanation, extra_cov=None, max_repla
     replays = replays_ok = 0
     harness_rows = []
     only = os.environ.get('VERIF_ONLY')
+    # groups are independent gosym processes: run them concurrently (each is single-threaded plus one z3)
+    from concurrent.futures import ThreadPoolExecutor
+    jobs = []
     for g in groups:
         names = g.get('harnesses') or gosymrun.harness_names(g['rel'])
         if only:
             import re
             names = [n for n in names if re.search(only, n)]
-        if not names:
-            continue
+        if names:
+            jobs.append((g, names))
+
+    def _run(job):
+        g, names = job
         try:
-            rs = gosymrun.run(g['pkg'], names, max_paths=g.get('max_paths', 20000), timeout_ms=g.get('timeout_ms', 60000),
-                              max_instrs=g.get('max_instrs', 50000000), wall_timeout=g.get('wall_timeout', 1500))
+            return gosymrun.run(g['pkg'], names, max_paths=g.get('max_paths', 20000), timeout_ms=g.get('timeout_ms', 60000),
+                                max_instrs=g.get('max_instrs', 50000000), wall_timeout=g.get('wall_timeout', 1500))
         except Exception as e:
-            rep.inconc(g['pkg'], 'gosym: %s' % e)
+            return e
+    gosymrun.ensure_built()
+    with ThreadPoolExecutor(max_workers=int(os.environ.get('VERIF_PROCS', '12'))) as ex:
+        outs = list(ex.map(_run, jobs))
+    for (g, names), rs in zip(jobs, outs):
+        if isinstance(rs, Exception):
+            rep.inconc(g['pkg'], 'gosym: %s' % rs)
             continue
         for r in rs:
             res = r['result']
